@@ -120,6 +120,11 @@ structure State where
   h : SdnsVerif.Model.Nsec3.HState := {}
   exp : SdnsVerif.Model.ProofExpiry.State := {}
 
+/-- the DS RRset variants of `authu`: `dsok` / `dsmixed` carry a supported DS, `dsunsupd` / `dsunsupa` only
+unsupported ones (digest type, DNSKEY algorithm). -/
+def dsKind (v : String) : Nat :=
+  if v == "dsok" || v == "dsmixed" then 1 else if v == "dsunsupd" || v == "dsunsupa" then 2 else 0
+
 open SdnsVerif.Model.Admission in
 def authStr (H : SdnsVerif.Model.Nsec3.HashFn) (i : AuthIn) : String :=
   let o := authorityStep H i
@@ -223,7 +228,8 @@ def stepNsec (st : State) (w : List String) : State × String :=
       let clsOK := st.set.all fun r => !nameInZone r.owner sg || r.cls == 1
       (st, authStr (fun _ => none) { signer := sg, q := q, t := t, nx := (rc == "nx"), reqCD := false, haveDS := true,
                                      signed := false, sigsGood := false, nsec := [], nsec3 := [],
-                                     dsSigsGood := (v == "good" && clsOK), dsNsec := st.set })
+                                     dsSigsGood := ((v == "good" || v.startsWith "ds") && (clsOK || v.startsWith "ds")),
+                                     dsNsec := (if v.startsWith "ds" then [] else st.set), dsAtCut := dsKind v })
     | _, _, _ => (st, "bad-op")
   | ["z", "auth", sg, q, t, rc, v] =>
     match parseName sg, parseName q, t.toNat? with
@@ -340,7 +346,8 @@ def stepNsec3 (st : State) (w : List String) : State × String :=
       let clsOK := st.h.set.all fun r => !nameInZone r.owner sg || r.cls == 1
       (st, authStr (htFn ht) { signer := sg, q := q, t := t, nx := (rc == "nx"), reqCD := false, haveDS := true,
                                signed := false, sigsGood := false, nsec := [], nsec3 := [],
-                               dsSigsGood := (v == "good" && clsOK), dsNsec3 := st.h.set })
+                               dsSigsGood := ((v == "good" || v.startsWith "ds") && (clsOK || v.startsWith "ds")),
+                               dsNsec3 := (if v.startsWith "ds" then [] else st.h.set), dsAtCut := dsKind v })
     | _, _, _, _ => (st, "bad-op")
   | ["h", "auth", sg, q, t, rc, v, ht] =>
     match parseName sg, parseName q, t.toNat?, parseHT ht with
